@@ -2,7 +2,7 @@
 // (namespace Sig.Gen), so that the theorems of lean/SignalGen/Eq/*.lean - "the definition regenerated from the
 // source equals the hand-written model" - are re-checked against what the code says now, on every run.
 //
-//	go2lean <repo dir> <out .lean> <report .json>
+//	go2lean <repo dir> <lean/SignalGen dir> <report .json>
 //
 // What it translates (everything else is reported as untranslatable, never guessed):
 //
@@ -1172,7 +1172,7 @@ type report struct {
 
 func main() {
 	if len(os.Args) != 4 {
-		fmt.Fprintln(os.Stderr, "usage: go2lean <repo dir> <out.lean> <report.json>")
+		fmt.Fprintln(os.Stderr, "usage: go2lean <repo dir> <lean/SignalGen dir> <report.json>")
 		os.Exit(2)
 	}
 	dir, outPath, repPath := os.Args[1], os.Args[2], os.Args[3]
@@ -1279,31 +1279,53 @@ func main() {
 			rep.Untranslatable[goName(fd)] = t.failed[obj]
 		}
 	}
-	var sb strings.Builder
-	sb.WriteString("/- GENERATED by harness/go2lean from the Go sources of pipelined.dev/signal - do not edit.\n   Regenerated by ./check on every run; the theorems of SignalGen/Eq/*.lean relate these definitions to the model. -/\n")
-	sb.WriteString("import SignalGen.Prelude\nset_option linter.unusedVariables false\nnamespace Sig.Gen\nopen Sig\n\n")
-	for _, n := range t.order {
-		sb.WriteString(t.text[n])
-		sb.WriteString("\n")
-	}
-	sb.WriteString("end Sig.Gen\n")
-	// position comments make the hash depend on line numbers: hash the definitions without the doc comments
-	h := sha256.New()
-	for _, n := range t.order {
-		txt := t.text[n]
-		if i := strings.Index(txt, "-/\n"); i >= 0 {
-			txt = txt[i+3:]
+	// one file per group of functions, so that a change of the source rebuilds only the equivalence modules that
+	// depend on the group it touches: Scalar (bit depths, Scale, Frequency, ChannelLength, BufferIndex, min),
+	// Kernels (the nine per-sample kernels), Buffer (methods of Buffer, C, PoolAllocator.Put)
+	group := func(n string) string {
+		short := strings.TrimPrefix(n, "Sig.Gen.")
+		switch {
+		case strings.HasSuffix(short, "_k"):
+			return "Kernels"
+		case strings.HasPrefix(short, "Buffer_") || strings.HasPrefix(short, "C_") || strings.HasPrefix(short, "PoolAllocator_"):
+			return "Buffer"
 		}
-		h.Write([]byte(txt))
+		return "Scalar"
+	}
+	h := sha256.New()
+	for _, grp := range []string{"Scalar", "Kernels", "Buffer"} {
+		var sb strings.Builder
+		sb.WriteString("/- GENERATED by harness/go2lean from the Go sources of pipelined.dev/signal - do not edit.\n   Regenerated by ./check on every run; the theorems of SignalGen/Eq/*.lean relate these definitions to the model. -/\n")
+		if grp == "Scalar" {
+			sb.WriteString("import SignalGen.Prelude\n")
+		} else {
+			sb.WriteString("import SignalGen.Gen.Scalar\n")
+		}
+		sb.WriteString("set_option linter.unusedVariables false\nnamespace Sig.Gen\nopen Sig\n\n")
+		for _, n := range t.order {
+			if group(n) != grp {
+				continue
+			}
+			sb.WriteString(t.text[n])
+			sb.WriteString("\n")
+			txt := t.text[n]
+			if i := strings.Index(txt, "-/\n"); i >= 0 {
+				txt = txt[i+3:]
+			}
+			h.Write([]byte(txt))
+		}
+		sb.WriteString("end Sig.Gen\n")
+		path := filepath.Join(outPath, "Gen", grp+".lean")
+		os.MkdirAll(filepath.Dir(path), 0o755)
+		old, _ := os.ReadFile(path)
+		if string(old) != sb.String() {
+			if err := os.WriteFile(path, []byte(sb.String()), 0o644); err != nil {
+				fmt.Fprintln(os.Stderr, err)
+				os.Exit(2)
+			}
+		}
 	}
 	rep.Hash = fmt.Sprintf("%x", h.Sum(nil))[:16]
-	old, _ := os.ReadFile(outPath)
-	if string(old) != sb.String() {
-		if err := os.WriteFile(outPath, []byte(sb.String()), 0o644); err != nil {
-			fmt.Fprintln(os.Stderr, err)
-			os.Exit(2)
-		}
-	}
 	js, _ := json.MarshalIndent(rep, "", " ")
 	os.WriteFile(repPath, js, 0o644)
 }
